@@ -40,7 +40,7 @@ type TierCfg struct {
 	MaxStrLen      int            `json:"max_str_len"`
 	MaxPaths       int            `json:"max_paths"`
 	MaxDecisions   int            `json:"max_decisions"`
-	MaxWallS       int            `json:"max_wall_s"` // wall-clock budget of the harness (default: quick 600, thorough 5400)
+	MaxWallS       int            `json:"max_wall_s"` // wall-clock budget of the harness (default: quick 300, thorough 5400)
 	MaxConcretize  int            `json:"max_concretize"`
 	Preempt        int            `json:"preempt"`
 	Params         map[string]int `json:"params"`
@@ -281,7 +281,7 @@ func cmdCheck(id, tier string) int {
 		case tc.MaxWallS > 0:
 			eng.MaxWall = time.Duration(tc.MaxWallS) * time.Second
 		case tier == "quick":
-			eng.MaxWall = 600 * time.Second
+			eng.MaxWall = 300 * time.Second
 		default:
 			eng.MaxWall = 5400 * time.Second
 		}
@@ -618,7 +618,9 @@ func runNative(id string, cases []replayCase, real map[string]string) []nativeRe
 		// a panic kills the binary, so the test driver re-executes remaining cases.
 		remaining := append([]int{}, idxs...)
 		for attempt := 0; len(remaining) > 0 && attempt < len(idxs)+1; attempt++ {
-			cmd := exec.Command("go", "test", "-tags", "verif", "-vet=off", "-count=1", "-overlay", ovFile, "-run", "^TestVerifReplay$", "-v", rel)
+			// a replayed deadlock hangs for real: the test deadline ends it (reported as "test timed
+			// out", which marks the case in flight as deadlock) and the remaining cases are re-run
+			cmd := exec.Command("go", "test", "-tags", "verif", "-vet=off", "-count=1", "-timeout", "120s", "-overlay", ovFile, "-run", "^TestVerifReplay$", "-v", rel)
 			cmd.Dir = repoDir
 			skip := []string{}
 			for _, i := range idxs {
@@ -634,7 +636,7 @@ func runNative(id string, cases []replayCase, real map[string]string) []nativeRe
 			}
 			cmd.Env = append(os.Environ(), "GOFLAGS=-mod=mod", "GOPROXY=off", "GOSUMDB=off", "GOTOOLCHAIN=local",
 				"VERIF_REPLAY="+cf, "VERIF_REPLAY_SKIP="+strings.Join(skip, ","))
-			out, _ := runWithTimeout(cmd, 10*time.Minute)
+			out, _ := runWithTimeout(cmd, 6*time.Minute)
 			os.WriteFile(filepath.Join(work, fmt.Sprintf("out-%d.txt", attempt)), out, 0644)
 			cur := -1
 			done := map[int]bool{}
